@@ -47,13 +47,169 @@ var c09GuardExceptions = map[string]string{
 	"idx:(*driver.config).makeURL:call get[high=1]":                                                       "taken only for reflect.Bool fields, whose get() value is fmt.Sprint(bool): \"true\" or \"false\"",
 }
 
+// c09ExceptionHooks re-verify, on every run, the part of a reviewed invariant that is
+// visible in the code: the set of callers the review covered, constants handed in, or the
+// producer the invariant names.  A hook that fails turns the exception back into a
+// violation, so a new call site or a changed producer has to be reviewed again.
+var c09ExceptionHooks = map[string]func(c *Check) string{
+	"(*graph.builder).tagGroupLabel": func(c *Check) string {
+		return callersExactly(c, "internal/graph", "(*builder).tagGroupLabel", "collapsedTags")
+	},
+	"(*graph.builder).collapsedTags": func(c *Check) string {
+		if bad := callersExactly(c, "internal/graph", "(*builder).collapsedTags", "numericNodelets"); bad != "" {
+			return bad
+		}
+		// the group count handed in is a positive constant (possibly through one forwarding parameter)
+		f := c.P.Func("internal/graph", "(*builder).collapsedTags")
+		var positiveAtAllSites func(callee *ssa.Function, idx, depth int) string
+		positiveAtAllSites = func(callee *ssa.Function, idx, depth int) string {
+			msg := ""
+			sites := 0
+			forAllPkgFuncs(c.P, "internal/graph", func(g *ssa.Function) {
+				for _, b := range g.Blocks {
+					for _, ins := range b.Instrs {
+						call, ok := ins.(*ssa.Call)
+						if !ok || call.Call.StaticCallee() != callee || idx >= len(call.Call.Args) {
+							continue
+						}
+						sites++
+						a := call.Call.Args[idx]
+						if k, ok := constInt(a); ok && k > 0 {
+							continue
+						}
+						if pr, ok := a.(*ssa.Parameter); ok && depth < 2 {
+							for i, q := range g.Params {
+								if q == pr {
+									if m := positiveAtAllSites(g, i, depth+1); m != "" {
+										msg = m
+									}
+								}
+							}
+							continue
+						}
+						msg = callee.Name() + " receives a group count that is not a positive constant in " + fnName(g)
+					}
+				}
+			})
+			if sites == 0 {
+				return "no call site of " + callee.Name() + " found"
+			}
+			return msg
+		}
+		idx := -1
+		for i, pr := range f.Params {
+			if bt, ok := pr.Type().Underlying().(*types.Basic); ok && bt.Kind() == types.Int {
+				idx = i
+			}
+		}
+		if idx < 0 {
+			return "collapsedTags has no int parameter"
+		}
+		return positiveAtAllSites(f, idx, 0)
+	},
+	"report.getSourceFromFile": func(c *Check) string {
+		return callersExactly(c, "internal/report", "getSourceFromFile", "printSource")
+	},
+	"driver.parseCommandLine": func(c *Check) string {
+		return callersExactly(c, "internal/driver", "parseCommandLine", "interactive")
+	},
+	"driver.generateRawReport": func(c *Check) string {
+		return callersExactly(c, "internal/driver", "generateRawReport", "generateReport", "makeReport")
+	},
+	"(*report.StackSet).makeInitialStacks": func(c *Check) string { return rootSourceFirst(c) },
+	"(*driver.webInterface).stackView":     func(c *Check) string { return rootSourceFirst(c) },
+}
+
+// callersExactly: the functions that reference fn are exactly the named ones.
+func callersExactly(c *Check, rel, fn string, callers ...string) string {
+	f := c.P.Func(rel, fn)
+	if f == nil {
+		return fn + " not found"
+	}
+	want := map[string]bool{}
+	for _, x := range callers {
+		want[x] = true
+	}
+	got := map[string]bool{}
+	for g := range c.P.AllFns {
+		if !fnInModule(g) || g.Blocks == nil {
+			continue
+		}
+		top := g
+		for top.Parent() != nil {
+			top = top.Parent()
+		}
+		for _, b := range g.Blocks {
+			for _, ins := range b.Instrs {
+				var ops []*ssa.Value
+				for _, op := range ins.Operands(ops) {
+					if op != nil && *op == ssa.Value(f) {
+						got[top.Name()] = true
+					}
+				}
+			}
+		}
+	}
+	for x := range got {
+		if !want[x] {
+			return fn + " is now also used by " + x + ", a caller the review of this invariant did not cover"
+		}
+	}
+	for x := range want {
+		if !got[x] {
+			return "reviewed caller " + x + " of " + fn + " no longer exists"
+		}
+	}
+	return ""
+}
+
+// rootSourceFirst: makeInitialStacks gives every Stack a Sources list with at least one
+// element and installs a non-empty StackSet.Sources before any sample is processed.
+func rootSourceFirst(c *Check) string {
+	f := c.P.Func("internal/report", "(*StackSet).makeInitialStacks")
+	if f == nil {
+		return "makeInitialStacks not found"
+	}
+	g := newGuardEngine(c.P)
+	stackOK, setOK := false, false
+	for _, b := range f.Blocks {
+		for _, ins := range b.Instrs {
+			st, ok := ins.(*ssa.Store)
+			if !ok {
+				continue
+			}
+			fa, ok := st.Addr.(*ssa.FieldAddr)
+			if !ok {
+				continue
+			}
+			T, F := fieldOf(fa.X.Type(), fa.Field)
+			if F != "Sources" || g.minLenByConstruction(st.Val, 0) < 1 {
+				continue
+			}
+			switch T {
+			case "report.Stack":
+				stackOK = true
+			case "report.StackSet":
+				setOK = true
+			}
+		}
+	}
+	switch {
+	case !stackOK:
+		return "makeInitialStacks no longer creates each Stack with a non-empty Sources list"
+	case !setOK:
+		return "makeInitialStacks no longer installs a non-empty StackSet.Sources (root first)"
+	}
+	return ""
+}
+
 func runC09(c *Check) {
 	c.Explanation = "Decides structural necessary conditions of C09 over everything outside package profile (the parser is C02): every explicit panic is in an inventory and is either discharged by an argument the checker re-verifies (config fields have only the four supported types; web handlers only pass command names that are keys of pprofCommands and parseCommandLine rejects unknown names; demangler modes assigned in Symbolize are cases of demanglerModeToOptions) or is an internal-invariant assertion supported by another rule (R1); every index or slice with constant bounds or len-k bounds is protected by a dominating length check, by its producer, or by a reviewed invariant (R2); no pointer obtained together with a discarded error is dereferenced unchecked (R3); errors of report generation reach PrintErr / http.Error and never a return or exit of the session loop (R4); every constant regular expression and every embedded HTML template compiles (R5). Not decided: hangs, arithmetic panics, nil maps in general, option values rejected late, plug-in behaviour."
 	c.panicInventory()
 	c.guardRule("C09-R2", func(f *ssa.Function) bool {
 		pk := fnPkgPath(f)
 		return pk != modPath+"/profile" && pk != modPath+"/internal/proftest" && !strings.Contains(pk, "third_party") && !strings.Contains(c.P.Fset.Position(f.Pos()).Filename, "/testdata/")
-	}, true, c09GuardExceptions)
+	}, true, c09GuardExceptions, c09ExceptionHooks)
 	c.Floor("C09-R2", 120)
 	c.discardedErrDeref()
 	c.lockRelease()
@@ -63,7 +219,15 @@ func runC09(c *Check) {
 }
 
 // guardRule runs A-GUARD over the selected functions.
-func (c *Check) guardRule(rule string, sel func(*ssa.Function) bool, constOnly bool, exceptions map[string]string) {
+func (c *Check) guardRule(rule string, sel func(*ssa.Function) bool, constOnly bool, exceptions map[string]string, hookTabs ...map[string]func(c *Check) string) {
+	hooks := map[string]func(c *Check) string{}
+	for _, t := range hookTabs {
+		for k, v := range t {
+			hooks[k] = v
+		}
+	}
+	hookRes := map[string]string{}
+	hooksUsed := 0
 	p := c.P
 	g := newGuardEngine(p)
 	var fns []*ssa.Function
@@ -88,11 +252,25 @@ func (c *Check) guardRule(rule string, sel func(*ssa.Function) bool, constOnly b
 			o := c.bad(rule, key, pos, fmt.Sprintf("index/slice %s in %s is not protected by a dominating length check, by its producer, or by a reviewed invariant: a short value panics", s.desc, fnName(f)))
 			if why, ok := exceptions[o.Key]; ok {
 				used[o.Key] = true
+				if h, hasHook := hooks[fnName(f)]; hasHook {
+					res, done := hookRes[fnName(f)]
+					if !done {
+						res = h(c)
+						hookRes[fnName(f)] = res
+					}
+					hooksUsed++
+					if res != "" {
+						o.Desc += " — the reviewed invariant (" + why + ") is no longer verified: " + res
+						continue
+					}
+					why += " [re-verified on this run]"
+				}
 				o.Status, o.How = "discharged", "reviewed invariant: "+why
 			}
 		}
 	}
 	_ = used
+	c.Extra["exception_hooks_evaluated_"+rule] = hooksUsed
 }
 
 // ---- R1
